@@ -13,7 +13,9 @@ import json
 import os
 
 from harness.common import Batch, rng, write_summary, exc_name, time_limit, HangTimeout
-from harness.search_common import Ids, make_rep, search_grammar, prog_value, icomps, SLeaf, SPlus
+from dataclasses import dataclass
+from geneticengine.grammar.grammar import extract_grammar
+from harness.search_common import Ids, make_rep, search_grammar, prog_value, icomps, SLeaf, SPlus, SRoot
 from harness.sources import ScriptedSource, explore, RecordingSource, Exhausted
 
 from geneticengine.algorithms.gp.gp import GeneticProgramming, default_generic_programming_step
@@ -102,11 +104,23 @@ def build_step(tree, log, path="s"):
     return Probe(inner, k, path, log)
 
 
+@dataclass(unsafe_hash=True)
+class SInner:
+    e: SRoot
+
+
+@dataclass(unsafe_hash=True)
+class SBox:
+    """a concrete start symbol two levels above the leaves: the smallest program is three levels deep"""
+    inner: SInner
+
+
 class Env:
-    def __init__(self, seed, multi=False):
+    def __init__(self, seed, multi=False, deep=False):
         self.rs = NativeRandomSource(seed)
-        g = search_grammar()
-        self.rep = TreeBasedRepresentation(g, MaxDepthDecider(self.rs, g, 3))
+        g = extract_grammar([SLeaf, SPlus, SInner], SBox) if deep else search_grammar()
+        self.depth = 5 if deep else 3
+        self.rep = TreeBasedRepresentation(g, MaxDepthDecider(self.rs, g, self.depth))
         self.multi = multi
         self.problem = MultiObjectiveProblem([False, True], fit2) if multi else SingleObjectiveProblem(fit1)
         self.evaluator = SequentialEvaluator()
@@ -224,20 +238,28 @@ def simplegp_run(R, n, elitism, novelty, gens, seed, selection=("tournament", 3)
 
 def initializer_events(R, seed):
     """every initialiser asked for k; injected initial populations of every length 0..k+2"""
-    env = Env(seed)
     evs = []
+    for deep in (False, True):
+        env = Env(seed, deep=deep)
+        evs += _initializer_events(env, "@min-depth-3" if deep else "")
+    return evs
+
+
+def _initializer_events(env, suffix):
+    evs = []
+    D = env.depth
     inits = {
         "standard": lambda: StandardInitializer(),
         "generic": lambda: GenericPopulationInitializer(),
-        "full": lambda: FullInitializer(3),
+        "full": lambda: FullInitializer(D),
         "grow": lambda: GrowInitializer(),
-        "pigrow": lambda: PositionIndependentGrowInitializer(3),
-        "ramped": lambda: RampedHalfAndHalfInitializer(3),
-        "halfandhalf": lambda: HalfAndHalfInitializer(FullInitializer(3), GrowInitializer()),
+        "pigrow": lambda: PositionIndependentGrowInitializer(D),
+        "ramped": lambda: RampedHalfAndHalfInitializer(D),
+        "halfandhalf": lambda: HalfAndHalfInitializer(FullInitializer(D), GrowInitializer()),
     }
     for name, mk in inits.items():
         for k in (1, 2, 3, 5, 8):
-            ev = {"e": "init", "kind": name, "injected": -1, "k": k, "out_len": 0, "exc": ""}
+            ev = {"e": "init", "kind": name + suffix, "injected": -1, "k": k, "out_len": 0, "exc": ""}
             try:
                 with time_limit(20):
                     ev["out_len"] = len(list(mk().initialize(env.problem, env.rep, env.rs, k)))
@@ -249,7 +271,7 @@ def initializer_events(R, seed):
             progs = [env.rep.create_genotype(env.rs) for _ in range(m)]
             if m % 2:
                 progs = [Individual(p, env.rep) for p in progs]
-            ev = {"e": "init", "kind": "inject", "injected": m, "k": k, "out_len": 0, "exc": ""}
+            ev = {"e": "init", "kind": "inject" + suffix, "injected": m, "k": k, "out_len": 0, "exc": ""}
             try:
                 with time_limit(20):
                     w = InjectInitialPopulationWrapper(progs, StandardInitializer())
